@@ -3,6 +3,7 @@ import XmppModel.Lemmas.Styling
 import XmppModel.Lemmas.StylingScanner
 import XmppModel.Lemmas.StylingStyle
 import XmppModel.Lemmas.StylingChunk
+import XmppModel.Lemmas.StylingRun
 import XmppModel.Generated.C17
 /-!
 # C17 — the styling decoder is lossless, chunk-independent and well-bracketed
@@ -21,6 +22,11 @@ theorem C17_gen_style_consts : Generated.C17.styleConsts = some styleConsts := b
 
 /-- the code fence literal -/
 theorem C17_gen_fence : Generated.C17.fence = some fence := by decide
+
+/-- the token size limit `NewDecoder` passes to `bufio.Scanner.Buffer`, read from the source
+(constant-evaluated; the default 64 KiB when `Buffer` is not called), is the model's: none.
+Any finite cap makes this obligation fail. -/
+theorem C17_gen_decoder_limit : Generated.C17.decoderLimit = some decoderLimit := by decide
 
 /-! ### Every call of the split function honours the `bufio.SplitFunc` contract
 
@@ -94,6 +100,15 @@ theorem C17_decoder_lossless (sch : Schedule) (doc : Bytes) :
   rw [events_concat 0 _ evs hevs]
   exact C17_lossless none sch doc heof
 
+/-- **lossless for the real `NewDecoder`**: the limit that the source gives the scanner
+(regenerated fact) admits every document — decoded to EOF under every schedule, with the
+event data concatenating to the document.  The "no limit" premise of
+`C17_decoder_lossless` is discharged from the fact, not assumed. -/
+theorem C17_newdecoder_lossless (sch : Schedule) (doc : Bytes) :
+    ∃ lim, Generated.C17.decoderLimit = some lim ∧ (decode lim sch doc).2 = .eof ∧
+      ∃ evs, (decode lim sch doc).1 = some evs ∧ (evs.map (·.data)).flatten = doc :=
+  ⟨none, C17_gen_decoder_limit, C17_decoder_lossless sch doc⟩
+
 /-- with a token limit (a caller's own `bufio.Scanner` around `styling.Scan()`) the only
 other outcome is `ErrTooLong`, and it does occur: one long line -/
 theorem C17_limit_witness :
@@ -142,16 +157,11 @@ theorem startCons_iff (m : Style) : StartCons m → StartConsistent m := by
     e 12 (by omega), e 14 (by omega), e 16 (by omega)]
   exact h
 
-/-- **style_consistent (partial)**: for every document, schedule and limit, every token a
-`Decoder` returns — real or virtual — carries a style in which each block directive bit and
-each span *start* bit comes with its style bit.
-
-Full statement (not proved here): also `SpanXEnd → SpanX` for the four span kinds.  That
-part needs "the span stack never holds the same directive twice", which follows only from
-the look-ahead discipline of `scanSpan` over the rest of the line (an invariant relating
-the state to the unread input); it is checked by the oracle on every generated case
-(`style-consistent`, `bracketing|style-without-span`). -/
-theorem C17_style_consistent_partial (limit : Option Nat) (sch : Schedule) (doc : Bytes) :
+/-- **style_consistent, block and start bits, any token limit**: for every document, schedule
+and limit, every token a `Decoder` returns — real or virtual — carries a style in which each
+block directive bit and each span *start* bit comes with its style bit.  (The end bits need
+the unread-input invariant: `C17_style_consistent` below.) -/
+theorem C17_style_consistent_start (limit : Option Nat) (sch : Schedule) (doc : Bytes) :
     ∃ evs, (decode limit sch doc).1 = some evs ∧ ∀ e ∈ evs, StartConsistent e.style := by
   have hinv := scanDoc_inv limit sch doc
   have hsome := events_isSome 0 (scanDoc limit sch doc).1 (fun x hx => (hinv x hx).1)
@@ -190,15 +200,14 @@ theorem C17_style_consistent_partial (limit : Option Nat) (sch : Schedule) (doc 
 
 example : StartConsistent (SpanStrong ||| SpanStrongStart) := by unfold StartConsistent Has; decide
 
-/-- **style_consistent, end bits (partial: per call, under the no-duplicate hypothesis)**:
+/-- **style_consistent, end bits, one call** (the whole-run form is `C17_style_consistent`;
+the no-duplicate hypothesis is established there by the unread-input invariant):
 when `scanSpan` runs on a decoder whose directive bits have been cleared (what `scan` does at
 entry — `Clean`), whose open spans all have their style bit set and not scheduled for clearing
 (`StackOK`), and whose span stack holds no directive twice, then after the call every span
 *end* bit comes with its style bit (bits 11/13/15/17 ⇒ 2/3/4/5) and `StackOK` still holds.
-What is not proved is that the stack never holds a directive twice (it follows from the
-look-ahead over the unread rest of the line); the oracle checks the consequence on the real
-code for every generated case. -/
-theorem C17_style_consistent_end_partial (lv : Level) (data : Bytes) (atEOF : Bool)
+-/
+theorem C17_style_consistent_end_call (lv : Level) (data : Bytes) (atEOF : Bool)
     (hc : Clean lv) (hs : StackOK lv) (hn : lv.spanStack.Nodup) :
     EndCons (scanSpan lv data atEOF).2.mask ∧ StackOK (scanSpan lv data atEOF).2 :=
   scanSpan_endCons data atEOF hc hs hn
@@ -302,5 +311,131 @@ the lossless + terminates pair above; the divergence itself is `C17_limit_witnes
 theorem C17_chunk_independent_events (sch : Schedule) (doc : Bytes) :
     decode none sch doc = decode none ⟨[], true⟩ doc :=
   (C17_chunk_independent sch ⟨[], true⟩ doc).2
+
+/-! ### Whole runs: bracket discipline, end bits, preformatted text
+
+The invariant behind these theorems relates the decoder to the *unread input* `R`
+(`Closable`, Lemmas/StylingBracket.lean): the closer of the innermost open span occurs in `R`
+before any newline, before any other occurrence of itself and before any byte equal to a
+span below it, and recursively for the rest of the stack after that closer; only the
+innermost decoder of the chain has open spans; no directive is twice on the stack.  It is
+proved for the run that has the whole rest buffered at EOF (`scanRel_bracket`,
+`refRun_steps`) and carried to every schedule by `C17_chunk_independent`. -/
+
+/-- the run of `NewDecoder` under any schedule is the reference run -/
+theorem run_eq_ref (sch : Schedule) (doc : Bytes) :
+    scanDoc none sch doc = refRun Dec.scan (fuelFor doc) {} doc := scanDoc_eq_ref sch doc
+
+/-- **bracketing (whole runs)**: for every document and every schedule, every step of the
+run — decoder `d` with unread input `R` returns token `t` and becomes `d'` (`StepP`) —
+satisfies
+
+* `lifo`: the open spans (`Dec.openSpans`, innermost first) stay the same, or one span is
+  pushed, or the innermost one is popped — so ends match starts LIFO with the same kind;
+* `line`: if the token contains a newline, no span is open after it — every span opened in a
+  line is closed before the line ends;
+* `pre_span`: inside an inline preformatted span (a backtick on the stack) no span is pushed;
+* `inv`: the invariant (incl. "no directive twice on the stack") holds again;
+
+and when the run is over no span is open. -/
+theorem C17_bracketing (sch : Schedule) (doc : Bytes) :
+    RunSteps {} doc (scanDoc none sch doc).1 ∧
+    (finalDec {} (scanDoc none sch doc).1).openSpans = [] := by
+  rw [run_eq_ref]
+  have h := refRun_steps (fuelFor doc) {} doc (Dec.RunInv_init doc)
+  refine ⟨h.1, h.2 ?_⟩
+  rw [← run_eq_ref ⟨[], true⟩ doc]
+  exact (C17_terminates none ⟨[], true⟩ doc).2 rfl
+
+/-- non-vacuity: `*a _b_*` opens strong, opens emph inside it, closes emph, closes strong -/
+example : ((scanDoc none ⟨[], true⟩ [star, 0x61, 0x20, under, 0x62, under, star, nl]).1.map
+    (fun x => x.2.openSpans)) = [[star], [star], [under, star], [under, star], [star], [], []] := by decide
+
+/-- "a span end bit implies its style bit", in mask form -/
+def EndConsistent (m : Style) : Prop :=
+  (Has m SpanEmphEnd → Has m SpanEmph) ∧ (Has m SpanStrongEnd → Has m SpanStrong) ∧
+  (Has m SpanStrikeEnd → Has m SpanStrike) ∧ (Has m SpanPreEnd → Has m SpanPre)
+
+theorem endCons_iff (m : Style) : EndCons m → EndConsistent m := by
+  intro h
+  have e : ∀ i, i < 32 → (Has m (BitVec.twoPow 32 i) ↔ m.getLsbD i = true) :=
+    fun i hi => and_twoPow_ne_zero m i hi
+  have c2 : SpanEmph = BitVec.twoPow 32 2 := by decide
+  have c3 : SpanStrong = BitVec.twoPow 32 3 := by decide
+  have c4 : SpanStrike = BitVec.twoPow 32 4 := by decide
+  have c5 : SpanPre = BitVec.twoPow 32 5 := by decide
+  have c11 : SpanEmphEnd = BitVec.twoPow 32 11 := by decide
+  have c13 : SpanStrongEnd = BitVec.twoPow 32 13 := by decide
+  have c15 : SpanStrikeEnd = BitVec.twoPow 32 15 := by decide
+  have c17 : SpanPreEnd = BitVec.twoPow 32 17 := by decide
+  unfold EndConsistent
+  rw [c2, c3, c4, c5, c11, c13, c15, c17]
+  simp only [e 2 (by omega), e 3 (by omega), e 4 (by omega), e 5 (by omega), e 11 (by omega),
+    e 13 (by omega), e 15 (by omega), e 17 (by omega)]
+  exact h
+
+/-- **style_consistent (full)**: for every document and schedule, every token `NewDecoder`
+returns — real or virtual — carries a style in which every start *and every end* directive
+bit (block and span) comes with its style bit. -/
+theorem C17_style_consistent (sch : Schedule) (doc : Bytes) :
+    ∃ evs, (decode none sch doc).1 = some evs ∧
+      ∀ e ∈ evs, StartConsistent e.style ∧ EndConsistent e.style := by
+  obtain ⟨evs, hevs, hstart⟩ := C17_style_consistent_start none sch doc
+  refine ⟨evs, hevs, ?_⟩
+  have hall : ∀ x ∈ (scanDoc none sch doc).1, LvGood x.2.lv ∧ ∀ q ∈ x.2.inner, LvGood q := by
+    have hb := (C17_bracketing sch doc).1
+    exact RunSteps_forall (P := fun d => LvGood d.lv ∧ ∀ q ∈ d.inner, LvGood q) _ _ _ hb
+      (fun d R t d' hs => hs.inv.good)
+  have key : ∀ (l : List (Bytes × Dec)) (prev : Nat) (evs : List Event),
+      (∀ x ∈ l, LvGood x.2.lv ∧ ∀ q ∈ x.2.inner, LvGood q) →
+      events prev l = some evs → ∀ e ∈ evs, EndConsistent e.style := by
+    intro l
+    induction l with
+    | nil => intro prev evs _ h; simp [events] at h; subst h; simp
+    | cons x xs ih =>
+      intro prev evs hx h
+      obtain ⟨t, d⟩ := x
+      simp only [events, Option.bind_eq_bind] at h
+      cases hq : d.quote with
+      | none => simp [hq] at h
+      | some cur =>
+        cases htl : events cur xs with
+        | none => simp [hq, htl] at h
+        | some tl =>
+          simp only [hq, htl, Option.bind_some] at h
+          have hd : EndConsistent d.style := by
+            have := hx (t, d) (by simp)
+            exact endCons_iff _ (styleLv_endCons d.lv d.inner this.1 this.2)
+          have htl' := ih cur tl (fun y hy => hx y (by simp [hy])) htl
+          have hv : EndConsistent (BlockQuoteEnd ||| BlockQuote) := by
+            unfold EndConsistent Has; decide
+          split at h <;> (simp at h; subst h; intro e he; simp at he)
+          · rcases he with rfl | rfl | he
+            · exact hv
+            · exact hd
+            · exact htl' e he
+          · rcases he with rfl | he
+            · exact hd
+            · exact htl' e he
+  intro e he
+  exact ⟨hstart e he, key _ 0 evs hall (by simpa [decode] using hevs) e he⟩
+
+/-- **no directive inside preformatted text (whole runs)**: for every document and schedule,
+at every point of the run: (a) while a backtick span is open no span is pushed (field
+`pre_span` of every step); (b) while some decoder of the chain is inside a preformatted
+block (`EffPre`: `BlockPre` in its mask and not scheduled for clearing) no span is open at
+all — and by `C17_no_directive_in_pre` the decoder that is inside the block only runs
+`scanPre`, which touches no stack and sets no start bit. -/
+theorem C17_no_directive_in_pre_run (sch : Schedule) (doc : Bytes) :
+    ∀ x ∈ (scanDoc none sch doc).1,
+      (EffPre x.2.lv ∨ ∃ q ∈ x.2.inner, EffPre q) → x.2.openSpans = [] := by
+  have hb := (C17_bracketing sch doc).1
+  exact RunSteps_forall (P := fun d => (EffPre d.lv ∨ ∃ q ∈ d.inner, EffPre q) → d.openSpans = []) _ _ _ hb
+    (fun d R t d' hs => inPre_closed d'.lv d'.inner _ hs.inv)
+
+/-- non-vacuity: inside a pre block (second token on) a decoder is `EffPre` -/
+example : ((scanDoc none ⟨[], true⟩ [tick, tick, tick, nl, star, 0x61, star, nl]).1.map
+    (fun x => (x.1.length, decide (x.2.lv.mask.getLsbD 0 = true ∧ x.2.lv.clearMask.getLsbD 0 = false),
+      x.2.openSpans))) = [(4, true, []), (4, true, [])] := by decide
 
 end XmppModel.Props.C17
